@@ -5,6 +5,8 @@ import (
 	"fmt"
 	"net/http"
 	"strings"
+
+	"github.com/vicanso/elton"
 )
 
 // suite fresh: upstream header sets through the real request path; observation = whether the
@@ -49,7 +51,7 @@ func genCacheControl(r *rng) []string {
 			name = "max-age"
 		case r.chance(20):
 			name = "s-maxage"
-		case r.chance(12):
+		case r.chance(7):
 			name = r.pick([]string{"no-cache", "no-store", "private"})
 		default:
 			name = r.pick(directiveNames)
@@ -98,7 +100,7 @@ func genFreshHeader(r *rng) http.Header {
 	if cc := genCacheControl(r); cc != nil {
 		h["Cache-Control"] = cc
 	}
-	switch r.intn(14) {
+	switch r.intn(24) {
 	case 0:
 		h["Set-Cookie"] = []string{"a=b"}
 	case 1:
@@ -129,7 +131,7 @@ func genFreshHeader(r *rng) http.Header {
 	return h
 }
 
-var freshMethods = []string{"GET", "GET", "GET", "GET", "GET", "GET", "HEAD", "HEAD", "POST", "PUT", "DELETE", "PATCH", "OPTIONS", "get"}
+var freshMethods = []string{"GET", "GET", "GET", "GET", "GET", "GET", "HEAD", "HEAD", "POST", "PUT", "DELETE", "PATCH", "OPTIONS"}
 var freshStatus = []int{200, 200, 200, 200, 201, 203, 204, 301, 302, 404, 410, 500, 503}
 
 // decode status / createdAt / expiredAt from an entry record
@@ -151,8 +153,12 @@ func suiteFresh(r *rng, n int) {
 		method := cr.pick(freshMethods)
 		status := freshStatus[cr.intn(len(freshStatus))]
 		h := genFreshHeader(cr)
-		body := []byte("body-" + itoa(int64(i)))
-		p.setScript(answer(status, h, body))
+		// every upstream answer carries its own serial number: a response served twice is recognisable
+		serial := 0
+		p.setScript(func(c *elton.Context) error {
+			serial++
+			return answer(status, h, []byte(fmt.Sprintf("body-%d-%d", i, serial)))(c)
+		})
 		p.store.takeSets()
 		uri := fmt.Sprintf("/fresh/%d?x=%d", i, cr.intn(10))
 		before := p.calls()
@@ -180,7 +186,12 @@ func suiteFresh(r *rng, n int) {
 		default:
 			stat("passed")
 		}
+		// the same request again: a hit must not touch the upstream, anything else must be forwarded afresh
+		before2 := p.calls()
+		w2 := p.do(method, "h.test", uri, nil, nil)
+		upCalls2 := p.calls() - before2
 		emit("fresh", itoa(int64(i)), hx(method), itoa(int64(status)), hxHeader(h), "=>",
-			itoa(int64(stored)), itoa(life), itoa(int64(hfp)), itoa(int64(upCalls)), hx(w.Header().Get("X-Status")), itoa(int64(w.Code)))
+			itoa(int64(stored)), itoa(life), itoa(int64(hfp)), itoa(int64(upCalls)), hx(w.Header().Get("X-Status")), itoa(int64(w.Code)),
+			itoa(int64(upCalls2)), hx(w2.Header().Get("X-Status")), hx(w.Body.String()), hx(w2.Body.String()))
 	}
 }
